@@ -112,7 +112,7 @@ def run(ctx, replay):
             raise vlib.MachineryError("negative sample (rename before sync) was not reported by Trace_FilesVFS")
         ctx.count("T", negative_samples_rejected=1)
     # diskpacked: default pack size and a tiny one (roll-over inside the history)
-    for mx in (["0", "260"] if quick else ["0", "150", "260", "400"]):
+    for mx in (["0", "130", "260"] if quick else ["0", "130", "200", "260", "400"]):
         do = ctx.path("dp_%s.ndjson" % mx)
         rc, so, se = ctx.run([drv, "-mode", "diskpacked", "-hist", hf, "-out", do, "-seed", str(ctx.seed), "-max", mx] +
                              ([] if quick else ["-everybyte"]), timeout=2400)
